@@ -114,6 +114,10 @@ class Auto:
     def event(self, state, ev, where):
         return state
 
+    def key(self, state):
+        """identity of a state for merging configurations (strip diagnostics)"""
+        return state
+
 
 def _place_locals(p, out):
     out.add(p["l"])
